@@ -107,9 +107,28 @@ class SimProtoExporter:
     def next_analysis_name(self) -> str:
         """Create a name for the next user-unnamed Analysis.
         Format: `Analysis{num}`, where `num` increases across all analyses."""
-        name = f"Analysis{self.analysis_count}"
-        self.analysis_count += 1
-        return name
+        while True:
+            name = f"Analysis{self.analysis_count}"
+            self.analysis_count += 1
+            if name not in self.user_analysis_names():
+                return name
+
+    def user_analysis_names(self) -> set:
+        """The names the user gave to analyses of our `Sim`, at any level of nesting."""
+        names = getattr(self, "_user_analysis_names", None)
+        if names is None:
+            names = set()
+
+            def collect(attrs):
+                for attr in attrs:
+                    if data.is_analysis(attr):
+                        if attr.name:
+                            names.add(attr.name)
+                        collect(getattr(attr, "inner", None) or [])
+
+            collect(self.sim.attrs)
+            self._user_analysis_names = names
+        return names
 
     def export_op(self, op: data.Op) -> vsp.OpInput:
         """Export an operating point analysis"""
@@ -314,7 +333,9 @@ def export_save(save: data.Save) -> vsp.Save:
         elif save.targ == data.SaveMode.NONE:
             mode = vsp.Save.SaveMode.NONE
         else:
-            raise ValueError
+            msg = f"Invalid Save mode {save.targ}: only ALL and NONE can be exported. "
+            msg += "To save selected signals, pass the signals (or their names) to `Save`."
+            raise ValueError(msg)
         return vsp.Save(mode=mode)
     if isinstance(save.targ, Signal):
         signal = save.targ.name
